@@ -78,7 +78,9 @@ def grad(model_out, *derivative_variable):
     for vari in derivative_variable:
         new_grad = _derivative(model_out, vari)
         grad.append(new_grad)
-    return torch.column_stack(grad)
+    # the derivatives are stacked along the last axis (also for inputs with
+    # more than one batch axis)
+    return torch.cat(grad, dim=-1)
 
 
 """
